@@ -227,6 +227,18 @@ def check_c15(rng, n, thorough=False):
                                 res["diffs"].append({"input": inp, "impl": impl, "model": got})
                             if len(res["samples"]) < 3 and fires and dist == "normal" and rt > 0:
                                 res["samples"].append({"input": inp, "result": impl})
+        # where the model (fed numpy's own draws for that seed) and this interpreter disagree, ask a FRESH interpreter:
+        # the answer is a function of (seed, probability, degree, runtime), not of what else this process has computed
+        for d_ in [x for x in res["diffs"] if x["impl"].startswith("ok ")][:6]:
+            i_ = d_["input"]
+            code = ("import sys; sys.path.insert(0, %r); from topsim.core.delay import DelayModel; "
+                    "print(int(DelayModel(%r, %r, DelayModel.DelayDegree[%r], seed=%r).generate_delay(%r)))" % (
+                        os.environ.get("TOPSIM_REPO", "/repo"), i_["prob"], i_["dist"], i_["degree"], i_["seed"], i_["runtime"]))
+            fr_ = subprocess.run([sys.executable, "-c", code], capture_output=True, text=True)
+            fresh = fr_.stdout.strip().split("\n")[-1] if fr_.stdout.strip() else "?"
+            if fresh != "?" and "ok " + fresh != d_["impl"]:
+                res["violations"].append({"prop": "C15", "kind": "delay-not-deterministic", "sig": "delay-not-deterministic:fresh-interpreter",
+                                          "detail": "%s in this process, %s in a fresh interpreter" % (d_["impl"], fresh), "input": i_})
     finally:
         drv.close()
     return res
@@ -337,9 +349,49 @@ def check_c16(rng, n):
                 res["samples"].append({"input": inp, "parsed": impl})
             if i % 4 == 0:
                 c16_realtime_cold(rng, res)
+            if i % 4 == 1:
+                c16_one_unit_run(rng, res)
     finally:
         drv.close()
     return res
+
+
+def c16_one_unit_run(rng, res):
+    """A whole run of the same physical scenario under a coarser unit, with an observation that is exactly ONE
+    unit long (its parsed duration is 1) and a data rate that is not a whole number per second: the run completes,
+    the observation takes in round(rate x unit) per step for one step, as the seconds run takes in its volume."""
+    unit = rng.choice(["minutes", 30, 60, 7, 2, 300, "hours"])
+    m = {"minutes": 60, "hours": 3600}.get(unit, unit)
+    rate = rng.choice([1, 2, 0.5, 0.7, 2.4, 0.1, 1.13, 2.05])
+    k = rng.choice([1, 1, 2, 3])
+    spec = {"machines": [{"id": "m0", "flops": 10, "bw": 2}, {"id": "m1", "flops": 10, "bw": 2}], "system_bandwidth": 1,
+            "total_arrays": 2, "max_ingest": 1,
+            "observations": [{"name": "a", "start": 0, "duration": k * m, "demand": 1, "rate": rate, "ingest_demand": 1,
+                              "workflow": {"nodes": [{"id": 0, "comp": 10 * m * rng.randint(1, 3)}], "edges": []}}],
+            "hot": {"capacity": 10 ** 7, "rate": 10}, "cold": {"capacity": 10 ** 7 + 5, "rate": 5},
+            "timestep": unit, "timestep_explicit": True, "planning": "batch", "scheduling": {"kind": "queue"}, "delay": None}
+    inp = {"scenario": "a run with an observation of %d unit(s)" % k, "unit": unit, "rate": rate}
+    res["evaluations"] += 1
+    bump(res["dist"], "one-unit-run:%s" % unit)
+    rec = runsim.run_spec(spec, max_steps=400)
+    want_step = int(Fraction(round(Fraction(str(rate)) * m)))
+    bad = None
+    if rec.get("exception"):
+        bad = "raised %s" % rec["exception"]["type"]
+    elif rec.get("nonterminated"):
+        bad = "did not finish within 400 steps"
+    else:
+        rows = rec["out"]["rows"]
+        # the volume taken in: what the hot tier held at its fullest
+        lows = [Fraction(str(r["hot_buffer"])) for r in rows if "hot_buffer" in r]
+        taken = (10 ** 7 - min(lows)) if lows else None
+        if taken is not None and taken != want_step * k:
+            bad = "took in %s, round(rate x unit) x steps = %s" % (taken, want_step * k)
+    if bad is None:
+        res["nontrivial"] += 1
+    else:
+        res["violations"].append({"prop": "C16", "kind": "unit-scaling", "sig": "unit-scaling:one-unit-run",
+                                  "detail": "under unit %s: %s" % (unit, bad), "input": inp})
 
 
 def c16_realtime_cold(rng, res, props=("C16",)):
